@@ -45,11 +45,18 @@ T = {
  "C14b": ("C14", "turning bands on a grid support with a Matern structure of parameter < 0.5", "MISSED by C14 quick at the time of seeding (microsim menus: spherical/exponential/gaussian only); harness extension requested", ""),
  "C01c": ("C01", "heterotopic multivariate data + moving neighbourhood: a heterotopic neighbourhood followed by an isotopic one of the same size in one kriging() call", "C01 quick", "estim:drift:multivar:block:isotopic"),
  "C02c": ("C02", "cokriging with >= 2 variables and >= 2 drift functions per variable (drift equations permuted in the LHS)", "C02 quick", "unbiased:monomial:drift:multivar:moving"),
- "C03c": ("C03", "rotated structure whose radius is changed through setRange(idim)/setScale(idim) after the rotation was set", "MISSED by C03 quick at the time of seeding (one construction route per structure); harness extension requested", ""),
+ "C03c": ("C03", "rotated structure whose radius is changed through setRange(idim)/setScale(idim) after the rotation was set", "C03 quick (after adding the construction-route and setter-sequence parts; missed before)", "setters:eval:after=setRange(0,.)"),
  "C04c": ("C04", "migrate with flag_ball and dist_type=2 (tree built with the Manhattan metric)", "C04 quick", "migrate-ball:point-to-point:differs"),
- "C05c": ("C05", "covariance/drift matrix requested for ONE variable of rank >= 1 on heterotopic multivariate data", "MISSED by C05 and C04 quick at the time of seeding (matrices requested for all variables only); harness extension requested", ""),
+ "C05c": ("C05", "covariance/drift matrix requested for ONE variable of rank >= 1 on heterotopic multivariate data", "C05 quick (after adding part one_variable_requests_on_heterotopic_data; missed before)", "evalCovMatrix:variable-restricted-request:rank>=1"),
  "C06c": ("C06", "sectors + a candidate with exactly the same first coordinate as the target on the dy<0 side", "MISSED by C06 quick at the time of seeding (jittered menus never produce dx == 0); harness extension requested", ""),
- "C07c": ("C07", "selection defined, active status queried once, then a role-less column stored before the selection column deleted (stale cached column index)", "MISSED by C07 quick at the time of seeding (readers evaluated in final states only: caches never primed mid-history); harness extension requested", ""),
+ "C07c": ("C07", "selection defined, active status queried once, then a role-less column stored before the selection column deleted (stale cached column index)", "C07 quick (after adding the observeAll step and the 'observed since last mutation' state bit; missed before)", "deleteColumnByColIdx:active-isActive"),
+ "C08c": ("C08", "Model with a mixed drift monomial of degree >= 3 (exponent > 1 followed by a factor without exponent)", "MISSED by C08 quick at the time of seeding (builder menu: IRF orders 0-2 only); harness extension requested", ""),
+ "C10c": ("C10", "isotropic structure then setRange(0,r)/setScale(0,s) only: stale isotropy flag (incremental update differs from fresh build)", "MISSED by C10 and C03 quick at the time of seeding; harness extension requested", ""),
+ "C11c": ("C11", "eigen-decomposition cached on one matrix object and not invalidated by addScalar/addScalarDiag/prodScalar/addMatInPlace", "MISSED by C11 quick at the time of seeding (every operation applied to a fresh object); harness extension requested", ""),
+ "C12c": ("C12", "asymmetric estimator cross term with tolang >= 90 and codir not +x (pair orientation by sample order)", "MISSED by C12 quick at the time of seeding (per-direction orientation reversal accepted); oracle tightening requested", ""),
+ "C15c": ("C15", "SPDE kriging with a V column, a selection masking a non-trailing sample and non-constant V", "MISSED by C15 quick at the time of seeding (layout axes not crossed); harness extension requested", ""),
+ "C16c": ("C16", "getCoordinate of a node, in-place geometry setter, getCoordinate of the same node (stale memo)", "MISSED by C16 quick at the time of seeding (grids built fresh, nodes queried in order); harness extension requested", ""),
+ "C17c": ("C17", "constraint declared through addItemFromParamId with iv1 >= 1 (Range V/W, 2nd/3rd angle) on an anisotropic fit", "MISSED by C17 quick at the time of seeding (one declaration route, component 0); harness extension requested", ""),
  "C09b": ("C09", "24/32-bit BMP whose colour-count header field exceeds 256", "C09 quick (after adding the binary grid readers with header-field faults; missed before)", "GridBmp:header-field:biClrUsed=small:memory-error"),
 }
 for seed, (prop, needs, caught, key) in T.items():
